@@ -218,7 +218,7 @@ def r3b_crc_check_is_panic_free(cx):
         bo = b.origins(t["args"][1])
         calls = [(x[1], b.term(x[1])) for x in bo if x[0] == "call"]
         lens = [(j, ct) for j, ct in calls if call_is(ct, r"\[.*\]>::len$")]
-        other = [callee_str(ct).split("::")[-1] for j, ct in calls if not call_is(ct, r"\[.*\]>::len$")]
+        other = [callee_str(ct).split("::")[-1] for j, ct in calls if not call_is(ct, r"\[.*\]>::len$", r"block::BlockCheck::size$")]
         consts = {x[1] for x in bo if x[0] == "const" and isinstance(x[1], int)}
         if not parents:
             ok = bool(lens) and not other and consts <= {4} and all(not any(y[0] == "call" and y[1] in idx_blocks for y in b.origins(ct["args"][0])) for j, ct in lens)
